@@ -28,6 +28,7 @@ RULE = (
     "frame, the same lattice rendered in the map frame for 3 (quick) / 12 (thorough) ego yaws, random pairs incl. exact 0/pi "
     "differences and small roll/pitch; non-trivial = pair with non-zero yaw difference; distinct = (frame, sign combo, "
     "quadrant of est yaw, quadrant of gt yaw, |d| bucket)"
+    " Later additions: orientations stored un-normalised (half, double, rounded); literal half-turn quaternions; every class and POLYGON shapes; label policies."
 )
 ASSUMPTIONS = ["roll and pitch <= 0.05 rad; for tilted boxes the yaw is convention dependent to second order, tolerance 2*tilt^2", "yaw-only boxes: weight tolerance 1e-9, error tolerance 1e-9"]
 DECIDING = ["TPMetricsAph.get_value.checked", "get_heading_error.checked", "C09.negative_yaw_ego_pairs", "C09.sign_checked", "C09.frame_checked", "C09.symmetry_checked", "C09.derived_checked", "C09.result_object_checked", "C09.label_policy_checked", "C09.ap_tp_lists_checked", "C09.polygon_shapes_checked", "C09.classes_checked", "C09.unnormalised_checked"]
